@@ -478,7 +478,7 @@ def r11_7(ctx: Ctx):
                 if q in excluded or c.name == '__init__':
                     continue
                 n += 1
-                r_ = ctx.pta.reachable([c], stop=lambda q2: q2 in lst or q2 in excluded)
+                r_ = ctx.pta.reachable([c], stop=lambda q2: q2 in lst or q2 in excluded) - excluded - lst
                 for m in E.mutations_in(ctx, r_):
                     judge(m, f' (through {c.short})')
     ctx.ok(rid, sd.short, f'{n} write sites / helper calls of the solve driver examined: none writes what the '
